@@ -15,7 +15,8 @@ CFG = {
         "capacity after every call; the eviction loop computes the trim and reports evicted values least recently used first; Get/Set/"
         "SetIfAbsent move to front, Peek/Exist leave the state unchanged; an oversize item empties the cache; the wide caches are, for every "
         "routing function and shard count, families of single caches of capacity capacity/shards+1 (Shard.sharded_projection) that refine "
-        "the family of ideal LRUs. The models are tied to the source on every run: generated sequential histories (all nine operations, "
+        "the family of ideal LRUs; for every schedule of concurrent callers the interleaving it selects is such a history (c04_every_schedule; "
+        "atomicity of each method by the lint). The models are tied to the source on every run: generated sequential histories (all nine operations, "
         "outcome + Keys/Items/Stats/Length/Size/Capacity/Evictions after every call, both packages), histories through the four wide "
         "constructors with 1..211 shards (outcome + Peek of every key after every call), concurrent runs of 2-4 goroutines linearised by the "
         "harness and replayed in Coq, and an out-of-domain stream (negative sizes/capacities -> panic, sizes near 2^63 -> int64 wrap). "
